@@ -186,6 +186,9 @@ func H_C17_Register(shape int) {
 			// position and asks for a side of a named callback ('*' is not offered here)
 			op.anchor = c17Name(tag+"_anchor", builtins, false)
 			verifrt.Assume(op.anchor != op.name)
+			// the named callback exists at that time (forward references are explored
+			// with the Register forms, kinds 1, 2 and 5)
+			verifrt.Assume(indexOf(live, op.anchor) >= 0 || indexOf(live, op.anchor+"!") >= 0)
 		}
 		verifrt.Tag(c17Describe(op, ops, base))
 		var e error
